@@ -866,13 +866,74 @@ COV_ALLOW = (
 )
 
 
+def _plain_function(obj):
+    import inspect
+    if isinstance(obj, (classmethod, staticmethod)):
+        obj = obj.__func__
+    elif isinstance(obj, property):
+        obj = obj.fget
+    obj = getattr(obj, 'py_func', obj)
+    return obj if inspect.isfunction(obj) else None
+
+
+def class_functions(cls):
+    """every function defined in the class body (public or private, whatever it is called today)"""
+    out = {}
+    for name, obj in vars(cls).items():
+        f = _plain_function(obj)
+        if f is not None:
+            out[f"{cls.__name__}.{name}"] = f
+    return out
+
+
+def named_functions(pairs):
+    """[(owner, attribute name)] -> the functions that exist; names that disappeared are returned separately"""
+    out, missing = {}, []
+    for owner, name in pairs:
+        f = _plain_function(vars(owner).get(name)) if hasattr(owner, '__dict__') else None
+        if f is None:
+            missing.append(f"{getattr(owner, '__name__', owner)}.{name}")
+        else:
+            out[f"{owner.__name__}.{name}"] = f
+    return out, missing
+
+
+def with_private_callees(funcs, namespaces):
+    """add, transitively, every PRIVATE helper (module-level function or method, name starting with one
+    underscore) of the given namespaces that a measured function refers to by name: a refactoring that moves
+    code of a modelled function into a helper keeps that code in the measured set."""
+    cand = {}
+    for ns in namespaces:
+        for name, obj in vars(ns).items():
+            if name.startswith('_') and not name.startswith('__'):
+                f = _plain_function(obj)
+                if f is not None and getattr(f, '__module__', None) == getattr(ns, '__module__', getattr(ns, '__name__', None)):
+                    cand.setdefault(name, (f"{ns.__name__.split('.')[-1]}.{name}", f))
+    out = dict(funcs)
+    have = {id(f.__code__) for f in out.values()}
+    todo = list(out.values())
+
+    def names(code):
+        yield from code.co_names
+        for c in code.co_consts:
+            if hasattr(c, 'co_names'):
+                yield from names(c)
+    while todo:
+        f = todo.pop()
+        for nm in names(f.__code__):
+            if nm in cand and id(cand[nm][1].__code__) not in have:
+                label, g = cand[nm]
+                out[label] = g
+                have.add(id(g.__code__))
+                todo.append(g)
+    return out
+
+
 def cov_functions():
+    """the whole Integrator class (the model is a model of the class, however its methods are split) plus
+    the private module-level helpers they call"""
     from pyins import strapdown
-    I = strapdown.Integrator
-    return {'Integrator.__init__': I.__init__, 'Integrator._integrate': I._integrate,
-            'Integrator.integrate': I.integrate, 'Integrator.predict': I.predict,
-            'Integrator.get_time': I.get_time, 'Integrator.get_pva': I.get_pva,
-            'Integrator.set_pva': I.set_pva}
+    return with_private_callees(class_functions(strapdown.Integrator), [strapdown, strapdown.Integrator])
 
 
 class Coverage:
